@@ -14,33 +14,41 @@ open Regress Regress.IR Regress.Parse Regress.ESG
 
 /-! ## The fragment -/
 
-/-- What may follow a `(`. -/
-def parenOk : List Nat → Bool
-  | 0x3F :: 0x3C :: x :: _ => x == 0x3D || x == 0x21
-  | 0x3F :: 0x3C :: [] => false
+/-- What may follow a `(` (`nm`: named groups admitted — then anything may follow `(?<`). -/
+def parenOk (nm : Bool) : List Nat → Bool
+  | 0x3F :: 0x3C :: x :: _ => x == 0x3D || x == 0x21 || nm
+  | 0x3F :: 0x3C :: [] => nm
   | 0x3F :: x :: _ => !(x == 0x69 || x == 0x6D || x == 0x73 || x == 0x2D)
   | _ => true
 
 /-- What may follow a `\` (where escapes are admitted at all): anything but `p`, `P` (property
-escapes) and `k` (named back-references). -/
-def escOk (x : Nat) : Bool := !(x == 0x70 || x == 0x50 || x == 0x6B)
+escapes) and — unless named groups are admitted — `k` (named back-references). -/
+def escOk (nm : Bool) (x : Nat) : Bool := !(x == 0x70 || x == 0x50 || (x == 0x6B && !nm))
+
+/-- Which features of the pattern language are admitted: `e` escapes, `k` character classes, `nm`
+named groups. -/
+structure Feat where
+  e : Bool
+  k : Bool
+  /-- named groups `(?<name>…)` and named back-references `\k<name>` -/
+  nm : Bool := false
 
 /-- The lexical fragment, as a scanner with two modes (`true`: inside a character class).
 `e`: escapes admitted; `k`: character classes admitted.  Outside a class: no named group, no
 modifier group; a `\` (only if `e`) makes the next character part of the escape; a `[` (only if `k`)
 opens a class.  Inside a class: a `\` makes the next character part of the escape (which must not be
 `p` / `P`), the first other `]` closes the class. -/
-def fragGo (e k : Bool) : Bool → List Nat → Bool
+def fragGo (F : Feat) : Bool → List Nat → Bool
   | true, [] => true
-  | true, 0x5C :: x :: r => !(x == 0x70 || x == 0x50) && fragGo e k true r
-  | true, 0x5D :: r => fragGo e k false r
-  | true, _ :: r => fragGo e k true r
+  | true, 0x5C :: x :: r => !(x == 0x70 || x == 0x50) && fragGo F true r
+  | true, 0x5D :: r => fragGo F false r
+  | true, _ :: r => fragGo F true r
   | false, [] => true
-  | false, 0x5C :: x :: r => e && escOk x && fragGo e k false r
-  | false, 0x5B :: r => k && fragGo e k true r
-  | false, c :: r => (c != 0x5C || e) && (c != 0x28 || parenOk r) && fragGo e k false r
+  | false, 0x5C :: x :: r => F.e && escOk F.nm x && fragGo F false r
+  | false, 0x5B :: r => F.k && fragGo F true r
+  | false, c :: r => (c != 0x5C || F.e) && (c != 0x28 || parenOk F.nm r) && fragGo F false r
 
-def fragCore (e k : Bool) (l : List Nat) : Bool := fragGo e k false l
+def fragCore (F : Feat) (l : List Nat) : Bool := fragGo F false l
 
 /-- Nesting depth, as a scanner: the largest excess of `(` over `)` in a prefix, counting only
 parentheses that are neither escaped nor inside a class. -/
@@ -57,8 +65,15 @@ def mdGo : Bool → List Nat → Nat
 
 def md (l : List Nat) : Nat := mdGo false l
 
+/-- After `(?`: the group name, if a well-formed `<name>` follows (the crate's
+`try_consume_named_capture_group_name`; the grammar's `GroupName` agrees, `groupName_sim`). -/
+def namedAhead (r : List Nat) : Option (List Nat) :=
+  match tryConsumeName r with
+  | .ok (some nm, _) => some nm
+  | _ => none
+
 /-- Number of capturing groups, as a scanner: `(` not followed by `?`, neither escaped nor inside a
-class (on the fragment every `(?` opens a non-capturing group or a look-around, or is an error). -/
+class, or `(?<name>` (every other `(?` opens a non-capturing group or a look-around, or is an error). -/
 def capGo : Bool → List Nat → Nat
   | true, [] => 0
   | true, 0x5C :: _ :: r => capGo true r
@@ -67,10 +82,24 @@ def capGo : Bool → List Nat → Nat
   | false, [] => 0
   | false, 0x5C :: _ :: r => capGo false r
   | false, 0x5B :: r => capGo true r
-  | false, 0x28 :: 0x3F :: r => capGo false r
+  | false, 0x28 :: 0x3F :: r => (if (namedAhead r).isSome then 1 else 0) + capGo false r
   | false, c :: r => (if c == 0x28 then 1 else 0) + capGo false r
 
 def capOpens (l : List Nat) : Nat := capGo false l
+
+/-- The group names of the pattern in order of appearance, as a scanner. -/
+def namesGo : Bool → List Nat → List (List Nat)
+  | true, [] => []
+  | true, 0x5C :: _ :: r => namesGo true r
+  | true, 0x5D :: r => namesGo false r
+  | true, _ :: r => namesGo true r
+  | false, [] => []
+  | false, 0x5C :: _ :: r => namesGo false r
+  | false, 0x5B :: r => namesGo true r
+  | false, 0x28 :: 0x3F :: r => (namedAhead r).toList ++ namesGo false r
+  | false, _ :: r => namesGo false r
+
+def lexNames (l : List Nat) : List (List Nat) := namesGo false l
 
 /-- Number of `(`. -/
 def opens : List Nat → Nat
@@ -118,8 +147,56 @@ theorem capGo_nil (m : Bool) : capGo m [] = 0 := by cases m <;> rw [capGo]
 
 theorem capOpens_esc (x : Nat) (r : List Nat) : capOpens (0x5C :: x :: r) = capOpens r := capGo_esc false x r
 
-theorem capOpens_q (r : List Nat) : capOpens (0x28 :: 0x3F :: r) = capOpens r := by
+theorem capOpens_q (r : List Nat) :
+    capOpens (0x28 :: 0x3F :: r) = (if (namedAhead r).isSome then 1 else 0) + capOpens r := by
   unfold capOpens; rw [capGo]
+
+theorem namesGo_esc (m : Bool) (x : Nat) (r : List Nat) : namesGo m (0x5C :: x :: r) = namesGo m r := by
+  cases m <;> rw [namesGo]
+
+theorem namesGo_in {c : Nat} (r : List Nat) (h1 : c ≠ 0x5C) (h2 : c ≠ 0x5D) :
+    namesGo true (c :: r) = namesGo true r := by
+  rw [namesGo]
+  · intro x r' h; exact absurd h h1
+  · intro h; exact absurd h h2
+
+theorem namesGo_close (r : List Nat) : namesGo true (0x5D :: r) = namesGo false r := by rw [namesGo]
+theorem namesGo_open (r : List Nat) : namesGo false (0x5B :: r) = namesGo true r := by rw [namesGo]
+theorem namesGo_nil (m : Bool) : namesGo m [] = [] := by cases m <;> rw [namesGo]
+
+theorem lexNames_esc (x : Nat) (r : List Nat) : lexNames (0x5C :: x :: r) = lexNames r := namesGo_esc false x r
+
+theorem lexNames_q (r : List Nat) :
+    lexNames (0x28 :: 0x3F :: r) = (namedAhead r).toList ++ lexNames r := by
+  unfold lexNames; rw [namesGo]
+
+theorem lexNames_plain {c : Nat} (r : List Nat) (h2 : c ≠ 0x5C) (h3 : c ≠ 0x5B)
+    (h1 : c = 0x28 → ∀ r', r ≠ 0x3F :: r') : lexNames (c :: r) = lexNames r := by
+  unfold lexNames
+  rw [namesGo]
+  · intro x r' h; exact absurd h h2
+  · intro h; exact absurd h h3
+  · intro r' h hr; exact h1 h r' hr
+
+theorem isIdStart_eq : Parse.isIdStart 0x3D = false := by decide +kernel
+theorem isIdStart_bang : Parse.isIdStart 0x21 = false := by decide +kernel
+
+/-- No name after `(?` when what follows is `:`, `=`, `!`, `<=`, `<!` or not `<` at all. -/
+theorem namedAhead_none {r : List Nat}
+    (h : (∀ r', r ≠ 0x3C :: r') ∨ (∃ z r', r = 0x3C :: z :: r' ∧ (z = 0x3D ∨ z = 0x21)) ∨ r = [0x3C]) :
+    namedAhead r = none := by
+  unfold namedAhead
+  rcases h with h | ⟨z, r', rfl, hz⟩ | rfl
+  · have : tryConsumeName r = .ok (none, r) := by
+      unfold tryConsumeName
+      split
+      · rename_i orig; exact absurd rfl (h orig)
+      · rfl
+    rw [this]
+  · rcases hz with rfl | rfl
+    · simp [tryConsumeName, Parse.nameChar, Parse.isChar, isIdStart_eq]
+    · simp [tryConsumeName, Parse.nameChar, Parse.isChar, isIdStart_bang]
+  · simp [tryConsumeName, Parse.nameChar]
 
 theorem capOpens_cap {r : List Nat} (hr : ∀ r', r ≠ 0x3F :: r') : capOpens (0x28 :: r) = capOpens r + 1 := by
   unfold capOpens
@@ -138,29 +215,29 @@ theorem capOpens_plain {c : Nat} (r : List Nat) (h1 : c ≠ 0x28) (h2 : c ≠ 0x
   · intro h; exact absurd h h3
   · intro r' h; exact absurd h h1
 
-theorem fragGo_esc_out (e k : Bool) (x : Nat) (r : List Nat) :
-    fragGo e k false (0x5C :: x :: r) = (e && escOk x && fragGo e k false r) := by rw [fragGo]
+theorem fragGo_esc_out (F : Feat) (x : Nat) (r : List Nat) :
+    fragGo F false (0x5C :: x :: r) = (F.e && escOk F.nm x && fragGo F false r) := by rw [fragGo]
 
-theorem fragGo_esc_in (e k : Bool) (x : Nat) (r : List Nat) :
-    fragGo e k true (0x5C :: x :: r) = (!(x == 0x70 || x == 0x50) && fragGo e k true r) := by rw [fragGo]
+theorem fragGo_esc_in (F : Feat) (x : Nat) (r : List Nat) :
+    fragGo F true (0x5C :: x :: r) = (!(x == 0x70 || x == 0x50) && fragGo F true r) := by rw [fragGo]
 
-theorem fragGo_in (e k : Bool) {c : Nat} (r : List Nat) (h1 : c ≠ 0x5C) (h2 : c ≠ 0x5D) :
-    fragGo e k true (c :: r) = fragGo e k true r := by
+theorem fragGo_in (F : Feat) {c : Nat} (r : List Nat) (h1 : c ≠ 0x5C) (h2 : c ≠ 0x5D) :
+    fragGo F true (c :: r) = fragGo F true r := by
   rw [fragGo]
   · intro x r' h; exact absurd h h1
   · intro h; exact absurd h h2
 
-theorem fragGo_close (e k : Bool) (r : List Nat) : fragGo e k true (0x5D :: r) = fragGo e k false r := by
+theorem fragGo_close (F : Feat) (r : List Nat) : fragGo F true (0x5D :: r) = fragGo F false r := by
   rw [fragGo]
 
-theorem fragGo_open (e k : Bool) (r : List Nat) : fragGo e k false (0x5B :: r) = (k && fragGo e k true r) := by
+theorem fragGo_open (F : Feat) (r : List Nat) : fragGo F false (0x5B :: r) = (F.k && fragGo F true r) := by
   rw [fragGo]
 
-theorem fragCore_esc (e k : Bool) (x : Nat) (r : List Nat) :
-    fragCore e k (0x5C :: x :: r) = (e && escOk x && fragCore e k r) := fragGo_esc_out e k x r
+theorem fragCore_esc (F : Feat) (x : Nat) (r : List Nat) :
+    fragCore F (0x5C :: x :: r) = (F.e && escOk F.nm x && fragCore F r) := fragGo_esc_out F x r
 
-theorem fragCore_cons (e k : Bool) {c : Nat} (r : List Nat) (hc : c ≠ 0x5C) (hb : c ≠ 0x5B) :
-    fragCore e k (c :: r) = ((c != 0x28 || parenOk r) && fragCore e k r) := by
+theorem fragCore_cons (F : Feat) {c : Nat} (r : List Nat) (hc : c ≠ 0x5C) (hb : c ≠ 0x5B) :
+    fragCore F (c :: r) = ((c != 0x28 || parenOk F.nm r) && fragCore F r) := by
   unfold fragCore
   rw [fragGo]
   · have hb : (c != 0x5C) = true := bne_iff_ne.2 hc
@@ -174,14 +251,14 @@ theorem md_cons {c : Nat} (r : List Nat) (hc : c ≠ 0x5C) (hb : c ≠ 0x5B) :
     md (c :: r) = if c == 0x28 then md r + 1 else if c == 0x29 then md r - 1 else md r :=
   mdGo_out r hc hb
 
-theorem fragCore_tail {e k : Bool} {c : Nat} {r : List Nat} (hc : c ≠ 0x5C) (hb : c ≠ 0x5B)
-    (h : fragCore e k (c :: r) = true) : fragCore e k r = true := by
-  rw [fragCore_cons e k r hc hb] at h
+theorem fragCore_tail {F : Feat} {c : Nat} {r : List Nat} (hc : c ≠ 0x5C) (hb : c ≠ 0x5B)
+    (h : fragCore F (c :: r) = true) : fragCore F r = true := by
+  rw [fragCore_cons F r hc hb] at h
   simp at h; exact h.2
 
-theorem fragCore_head {e k : Bool} {c : Nat} {r : List Nat} (hc : c ≠ 0x5C) (hb : c ≠ 0x5B)
-    (h : fragCore e k (c :: r) = true) : c = 0x28 → parenOk r = true := by
-  rw [fragCore_cons e k r hc hb] at h
+theorem fragCore_head {F : Feat} {c : Nat} {r : List Nat} (hc : c ≠ 0x5C) (hb : c ≠ 0x5B)
+    (h : fragCore F (c :: r) = true) : c = 0x28 → parenOk F.nm r = true := by
+  rw [fragCore_cons F r hc hb] at h
   simp at h
   intro hc
   rcases h.1 with h' | h'
@@ -200,50 +277,63 @@ theorem quants_append_le (p r : List Nat) : quants r ≤ quants (p ++ r) := by
 
 /-- A prefix whose removal, in scanner mode `m`, changes neither the mode, nor the nesting depth, nor
 the group count, nor membership in the fragment. -/
-def NeutralM (e k : Bool) (m : Bool) (p : List Nat) : Prop :=
-  ∀ r, mdGo m (p ++ r) = mdGo m r ∧ capGo m (p ++ r) = capGo m r ∧
-    (fragGo e k m (p ++ r) = true → fragGo e k m r = true)
+structure NeutralM (F : Feat) (m : Bool) (p : List Nat) : Prop where
+  md : ∀ r, mdGo m (p ++ r) = mdGo m r
+  cap : ∀ r, capGo m (p ++ r) = capGo m r
+  names : ∀ r, namesGo m (p ++ r) = namesGo m r
+  frag : ∀ r, fragGo F m (p ++ r) = true → fragGo F m r = true
 
 /-- Neutral outside a class. -/
-def Neutral (e k : Bool) (p : List Nat) : Prop := NeutralM e k false p
+def Neutral (F : Feat) (p : List Nat) : Prop := NeutralM F false p
 
-theorem neutralM_nil (e k m : Bool) : NeutralM e k m [] := fun _ => ⟨rfl, rfl, id⟩
+theorem neutralM_nil (F : Feat) (m : Bool) : NeutralM F m [] :=
+  ⟨fun _ => rfl, fun _ => rfl, fun _ => rfl, fun _ => id⟩
 
-theorem neutralM_append {e k m : Bool} {p q : List Nat} (hp : NeutralM e k m p) (hq : NeutralM e k m q) :
-    NeutralM e k m (p ++ q) := by
-  intro r
-  rw [List.append_assoc]
-  exact ⟨(hp (q ++ r)).1.trans (hq r).1, (hp (q ++ r)).2.1.trans (hq r).2.1,
-    fun h => (hq r).2.2 ((hp (q ++ r)).2.2 h)⟩
+theorem neutralM_append {F : Feat} {m : Bool} {p q : List Nat} (hp : NeutralM F m p) (hq : NeutralM F m q) :
+    NeutralM F m (p ++ q) := by
+  refine ⟨fun r => ?_, fun r => ?_, fun r => ?_, fun r h => ?_⟩
+  · rw [List.append_assoc]; exact (hp.md _).trans (hq.md r)
+  · rw [List.append_assoc]; exact (hp.cap _).trans (hq.cap r)
+  · rw [List.append_assoc]; exact (hp.names _).trans (hq.names r)
+  · rw [List.append_assoc] at h; exact hq.frag r (hp.frag _ h)
 
-theorem Neutral.md_eq {e k : Bool} {p : List Nat} (hp : Neutral e k p) (r : List Nat) :
-    md (p ++ r) = md r := (hp r).1
-theorem Neutral.cap_eq {e k : Bool} {p : List Nat} (hp : Neutral e k p) (r : List Nat) :
-    capOpens (p ++ r) = capOpens r := (hp r).2.1
-theorem Neutral.frag {e k : Bool} {p : List Nat} (hp : Neutral e k p) {r : List Nat}
-    (h : fragCore e k (p ++ r) = true) : fragCore e k r = true := (hp r).2.2 h
+theorem Neutral.md_eq {F : Feat} {p : List Nat} (hp : Neutral F p) (r : List Nat) :
+    md (p ++ r) = md r := hp.md r
+theorem Neutral.cap_eq {F : Feat} {p : List Nat} (hp : Neutral F p) (r : List Nat) :
+    capOpens (p ++ r) = capOpens r := hp.cap r
+theorem Neutral.names_eq {F : Feat} {p : List Nat} (hp : Neutral F p) (r : List Nat) :
+    lexNames (p ++ r) = lexNames r := hp.names r
+theorem Neutral.frag' {F : Feat} {p : List Nat} (hp : Neutral F p) {r : List Nat}
+    (h : fragCore F (p ++ r) = true) : fragCore F r = true := hp.frag r h
 
-theorem neutral_nil (e k : Bool) : Neutral e k [] := neutralM_nil e k false
+theorem neutral_nil (F : Feat) : Neutral F [] := neutralM_nil F false
 
-theorem neutral_append {e k : Bool} {p q : List Nat} (hp : Neutral e k p) (hq : Neutral e k q) :
-    Neutral e k (p ++ q) := neutralM_append hp hq
+theorem neutral_append {F : Feat} {p q : List Nat} (hp : Neutral F p) (hq : Neutral F q) :
+    Neutral F (p ++ q) := neutralM_append hp hq
 
 /-- An ordinary character in both scanner modes: no parenthesis, bracket or backslash. -/
 def Plain (c : Nat) : Prop := c ≠ 0x28 ∧ c ≠ 0x29 ∧ c ≠ 0x5C ∧ c ≠ 0x5B ∧ c ≠ 0x5D
 
-theorem neutralM_plain (e k m : Bool) {c : Nat} (h : Plain c) : NeutralM e k m [c] := by
-  intro r
+/-- Outside a class every character but `(` `)` `\` `[` is ordinary. -/
+theorem neutral_out (F : Feat) {c : Nat} (h1 : c ≠ 0x28) (h2 : c ≠ 0x29) (h3 : c ≠ 0x5C) (h4 : c ≠ 0x5B) :
+    Neutral F [c] := by
+  refine ⟨fun r => ?_, fun r => capOpens_plain r h1 h3 h4,
+    fun r => lexNames_plain r h3 h4 (fun h => absurd h h1), fun r hf => fragCore_tail h3 h4 hf⟩
+  simp [mdGo_out r h3 h4, h1, h2]
+
+/-- Inside a class every character but `\` and `]` is ordinary. -/
+theorem neutralM_in (F : Feat) {c : Nat} (h1 : c ≠ 0x5C) (h2 : c ≠ 0x5D) : NeutralM F true [c] :=
+  ⟨fun r => mdGo_in r h1 h2, fun r => capGo_in r h1 h2, fun r => namesGo_in r h1 h2,
+    fun r hf => by rwa [List.singleton_append, fragGo_in F r h1 h2] at hf⟩
+
+theorem neutralM_plain (F : Feat) (m : Bool) {c : Nat} (h : Plain c) : NeutralM F m [c] := by
   obtain ⟨h1, h2, h3, h4, h5⟩ := h
   cases m with
-  | true =>
-    exact ⟨mdGo_in r h3 h5, capGo_in r h3 h5, fun hf => by rwa [List.singleton_append, fragGo_in e k r h3 h5] at hf⟩
-  | false =>
-    refine ⟨?_, capOpens_plain r h1 h3 h4, fun hf => fragCore_tail h3 h4 hf⟩
-    simp [mdGo_out r h3 h4, h1, h2]
+  | true => exact neutralM_in F h3 h5
+  | false => exact neutral_out F h1 h2 h3 h4
 
-theorem neutralM_esc (e k m : Bool) (x : Nat) : NeutralM e k m [0x5C, x] := by
-  intro r
-  refine ⟨mdGo_esc m x r, capGo_esc m x r, fun hf => ?_⟩
+theorem neutralM_esc (F : Feat) (m : Bool) (x : Nat) : NeutralM F m [0x5C, x] := by
+  refine ⟨fun r => mdGo_esc m x r, fun r => capGo_esc m x r, fun r => namesGo_esc m x r, fun r hf => ?_⟩
   cases m with
   | true =>
     simp only [List.cons_append, List.nil_append, fragGo_esc_in, Bool.and_eq_true] at hf
@@ -252,41 +342,28 @@ theorem neutralM_esc (e k m : Bool) (x : Nat) : NeutralM e k m [0x5C, x] := by
     simp only [List.cons_append, List.nil_append, fragGo_esc_out, Bool.and_eq_true] at hf
     exact hf.2
 
-theorem neutralM_plains (e k m : Bool) {p : List Nat} (h : ∀ c ∈ p, Plain c) : NeutralM e k m p := by
+theorem neutralM_plains (F : Feat) (m : Bool) {p : List Nat} (h : ∀ c ∈ p, Plain c) : NeutralM F m p := by
   induction p with
-  | nil => exact neutralM_nil e k m
+  | nil => exact neutralM_nil F m
   | cons c p ih =>
-    exact neutralM_append (p := [c]) (neutralM_plain e k m (h c (by simp)))
+    exact neutralM_append (p := [c]) (neutralM_plain F m (h c (by simp)))
       (ih (fun x hx => h x (by simp [hx])))
 
-theorem neutral_plain (e k : Bool) {c : Nat} (h : Plain c) : Neutral e k [c] := neutralM_plain e k false h
-theorem neutral_esc (e k : Bool) (x : Nat) : Neutral e k [0x5C, x] := neutralM_esc e k false x
-theorem neutral_plains (e k : Bool) {p : List Nat} (h : ∀ c ∈ p, Plain c) : Neutral e k p :=
-  neutralM_plains e k false h
-
-/-- Outside a class every character but `(` `)` `\` `[` is ordinary. -/
-theorem neutral_out (e k : Bool) {c : Nat} (h1 : c ≠ 0x28) (h2 : c ≠ 0x29) (h3 : c ≠ 0x5C) (h4 : c ≠ 0x5B) :
-    Neutral e k [c] := by
-  intro r
-  refine ⟨?_, capOpens_plain r h1 h3 h4, fun hf => fragCore_tail h3 h4 hf⟩
-  simp [mdGo_out r h3 h4, h1, h2]
-
-/-- Inside a class every character but `\` and `]` is ordinary. -/
-theorem neutralM_in (e k : Bool) {c : Nat} (h1 : c ≠ 0x5C) (h2 : c ≠ 0x5D) : NeutralM e k true [c] := by
-  intro r
-  exact ⟨mdGo_in r h1 h2, capGo_in r h1 h2, fun hf => by rwa [List.singleton_append, fragGo_in e k r h1 h2] at hf⟩
+theorem neutral_plain (F : Feat) {c : Nat} (h : Plain c) : Neutral F [c] := neutralM_plain F false h
+theorem neutral_esc (F : Feat) (x : Nat) : Neutral F [0x5C, x] := neutralM_esc F false x
+theorem neutral_plains (F : Feat) {p : List Nat} (h : ∀ c ∈ p, Plain c) : Neutral F p :=
+  neutralM_plains F false h
 
 /-- A complete class `[ body ]` is neutral outside. -/
-theorem neutral_class {e k : Bool} {b : List Nat} (hb : NeutralM e k true b) :
-    Neutral e k (0x5B :: (b ++ [0x5D])) := by
-  intro r
-  have e1 : 0x5B :: (b ++ [0x5D]) ++ r = 0x5B :: (b ++ 0x5D :: r) := by simp
-  rw [e1]
-  refine ⟨?_, ?_, fun hf => ?_⟩
-  · rw [mdGo_open, (hb _).1, mdGo_close]
-  · rw [capGo_open, (hb _).2.1, capGo_close]
-  · rw [fragGo_open, Bool.and_eq_true] at hf
-    have := (hb _).2.2 hf.2
+theorem neutral_class {F : Feat} {b : List Nat} (hb : NeutralM F true b) :
+    Neutral F (0x5B :: (b ++ [0x5D])) := by
+  have e1 : ∀ r, 0x5B :: (b ++ [0x5D]) ++ r = 0x5B :: (b ++ 0x5D :: r) := by intro r; simp
+  refine ⟨fun r => ?_, fun r => ?_, fun r => ?_, fun r hf => ?_⟩
+  · rw [e1, mdGo_open, hb.md, mdGo_close]
+  · rw [e1, capGo_open, hb.cap, capGo_close]
+  · rw [e1, namesGo_open, hb.names, namesGo_close]
+  · rw [e1, fragGo_open, Bool.and_eq_true] at hf
+    have := hb.frag _ hf.2
     rwa [fragGo_close] at this
 
 theorem quants_qdrop {r r2 : List Nat} (h : QDrop r r2) : quants r2 + 1 ≤ quants r := by
@@ -297,9 +374,9 @@ theorem quants_qdrop {r r2 : List Nat} (h : QDrop r r2) : quants r2 + 1 ≤ quan
   simp only [quants, hq, if_true]
   omega
 
-theorem QDrop.neutral (e k : Bool) {r r2 : List Nat} (h : QDrop r r2) : ∃ p, r = p ++ r2 ∧ Neutral e k p := by
+theorem QDrop.neutral (F : Feat) {r r2 : List Nat} (h : QDrop r r2) : ∃ p, r = p ++ r2 ∧ Neutral F p := by
   obtain ⟨x, p, rfl, hx, hp⟩ := h
-  refine ⟨x :: p, rfl, neutral_plains e k ?_⟩
+  refine ⟨x :: p, rfl, neutral_plains F ?_⟩
   intro c hc
   rcases List.mem_cons.1 hc with rfl | h
   · rcases hx with h | h | h | h <;> subst h <;> (refine ⟨?_, ?_, ?_, ?_, ?_⟩ <;> decide)
@@ -313,34 +390,74 @@ top-level disjunction), at most 65535 `(` (capture groups), at most 65535 quanti
 def withinLimits (pat : List Nat) : Bool :=
   decide (md pat ≤ 255) && decide (opens pat ≤ 65535) && decide (quants pat ≤ 65535)
 
+/-- The global parameters of a run: `G` the capture-group count the crate's pre-scan found
+(`group_count_max`), `K` the lexical number of capturing groups of the whole pattern. -/
+structure Glob where
+  G : Nat
+  K : Nat
+  /-- the name table the crate's pre-scan built (`named_group_indices`) -/
+  N : List (List Nat × List Nat) := []
+  /-- the group names of the whole pattern, lexically, in order -/
+  L : List (List Nat) := []
+
 /-- Invariant of the parser state during the descent (for a state INSIDE a disjunction, i.e. after
 `consume_disjunction` has incremented `depth`).  `e`: escapes admitted (then the input consists of
 Unicode scalar values); `k`: classes admitted (then the flag `v` is off); `u`: the mode. -/
-structure PInv (e k u : Bool) (G K : Nat) (st : PState) : Prop where
+structure PInv (F : Feat) (u : Bool) (Γ : Glob) (st : PState) : Prop where
   uni : st.flags.unicode = u
-  nov : k = true → st.flags.unicodeSets = false
-  frag : fragCore e k st.input = true
-  chars : e = true → ∀ c ∈ st.input, Parse.isChar c = true
+  nov : F.k = true → st.flags.unicodeSets = false
+  frag : fragCore F st.input = true
+  chars : F.e = true → ∀ c ∈ st.input, Parse.isChar c = true
   depth : st.depth + md st.input ≤ 256
   groups : st.groupCount + opens st.input ≤ 65535
   loops : st.loopCount + quants st.input ≤ 65535
   /-- `G` is the capture-group count of the pre-scan (`group_count_max`) -/
-  gmax : st.groupCountMax = G
+  gmax : st.groupCountMax = Γ.G
   /-- `K` is the number of capturing groups of the whole pattern: those already built plus those
   still ahead -/
-  cap : st.groupCount + capOpens st.input = K
+  cap : st.groupCount + capOpens st.input = Γ.K
+  /-- the name table is the pre-scan's, and has no empty entry -/
+  named : st.named = Γ.N
+  nok : NamedOK Γ.N
 
 /-- Invariant of the grammar recognizer's state on the fragment while the crate's parser is still
 running: every decimal escape seen so far is within the pre-scan count `G` (as the crate reads it:
-saturated to 64 bits); no named group, no named reference. -/
-structure EInv (G : Nat) (est : ESG.St) : Prop where
-  maxDec : min est.maxDec USIZE_MAX ≤ G
-  refs : est.refs = []
-  names : est.names = []
+saturated to 64 bits), every named reference seen so far is in the pre-scan's name table, and the
+scope (the names a new group might clash with) consists of names seen. -/
+structure EInv (Γ : Glob) (est : ESG.St) : Prop where
+  maxDec : min est.maxDec USIZE_MAX ≤ Γ.G
+  refs : ∀ r ∈ est.refs, (mapGet Γ.N r).isSome = true
+  scope : ∀ x ∈ est.scope, x ∈ est.names
 
-/-- The grammar has seen a decimal escape beyond the pre-scan count: the crate has stopped with a
-syntax error, the grammar will fail its final early-error check. -/
-def Poisoned (G : Nat) (est : ESG.St) : Prop := G < min est.maxDec USIZE_MAX
+/-- The grammar has seen a decimal escape beyond the pre-scan count, or a named reference that is not
+in the pre-scan's table: the crate has stopped with a syntax error, the grammar will fail its final
+early-error check. -/
+def Poisoned (Γ : Glob) (est : ESG.St) : Prop :=
+  Γ.G < min est.maxDec USIZE_MAX ∨ ∃ r ∈ est.refs, mapGet Γ.N r = none
+
+/-- What the two states have in common: the number of groups opened so far, and the names seen so
+far (followed by those still ahead: all names of the pattern). -/
+structure Joint (Γ : Glob) (est : ESG.St) (st : PState) : Prop where
+  groups : est.groups = st.groupCount
+  names : est.names.reverse ++ lexNames st.input = Γ.L
+
+/-- The recognizer's state only grows. -/
+structure Grows (est est' : ESG.St) : Prop where
+  maxDec : est.maxDec ≤ est'.maxDec
+  refs : est.refs <:+ est'.refs
+  names : est.names <:+ est'.names
+
+theorem Grows.refl (est : ESG.St) : Grows est est :=
+  ⟨Nat.le_refl _, List.suffix_refl _, List.suffix_refl _⟩
+
+theorem Grows.trans {a b c : ESG.St} (h1 : Grows a b) (h2 : Grows b c) : Grows a c :=
+  ⟨Nat.le_trans h1.maxDec h2.maxDec, h1.refs.trans h2.refs, h1.names.trans h2.names⟩
+
+theorem Poisoned.mono {Γ : Glob} {est est' : ESG.St} (h : Poisoned Γ est) (hg : Grows est est') :
+    Poisoned Γ est' := by
+  rcases h with h | ⟨r, hr, hn⟩
+  · left; have := hg.maxDec; omega
+  · exact .inr ⟨r, hg.refs.subset hr, hn⟩
 
 /-- A syntax error. -/
 def IsSyn {α : Type} (r : Res α) : Prop := ∃ msg, r = .error (.syntax msg)
@@ -348,8 +465,8 @@ def IsSyn {α : Type} (r : Res α) : Prop := ∃ msg, r = .error (.syntax msg)
 theorem isSyn_synErr {α : Type} (m : String) : IsSyn (synErr m : Res α) := ⟨m, rfl⟩
 
 /-- Consuming a neutral prefix. -/
-theorem PInv.drop {e k u : Bool} {G K : Nat} {st : PState} (h : PInv e k u G K st) {p r : List Nat}
-    (hi : st.input = p ++ r) (hp : Neutral e k p) : PInv e k u G K { st with input := r } := by
+theorem PInv.drop {F : Feat} {u : Bool} {Γ : Glob} {st : PState} (h : PInv F u Γ st) {p r : List Nat}
+    (hi : st.input = p ++ r) (hp : Neutral F p) : PInv F u Γ { st with input := r } := by
   have h1 := h.depth; have h2 := h.groups; have h3 := h.loops; have h4 := h.frag
   have h5 := h.chars; have h6 := h.cap
   rw [hi] at h1 h2 h3 h4 h5 h6
@@ -357,13 +474,24 @@ theorem PInv.drop {e k u : Bool} {G K : Nat} {st : PState} (h : PInv e k u G K s
   rw [hp.cap_eq r] at h6
   have := quants_append_le p r
   have := opens_append_le p r
-  exact ⟨h.uni, h.nov, hp.frag h4, fun he c hc => h5 he c (by simp [hc]), h1, by simp only; omega,
-    by simp only; omega, h.gmax, h6⟩
+  exact ⟨h.uni, h.nov, hp.frag' h4, fun he c hc => h5 he c (by simp [hc]), h1, by simp only; omega,
+    by simp only; omega, h.gmax, h6, h.named, h.nok⟩
 
-theorem PInv.tail {e k u : Bool} {G K : Nat} {st : PState} (h : PInv e k u G K st) {c : Nat} {r : List Nat}
+theorem PInv.tail {F : Feat} {u : Bool} {Γ : Glob} {st : PState} (h : PInv F u Γ st) {c : Nat} {r : List Nat}
     (hi : st.input = c :: r) (h1 : c ≠ 0x28) (h2 : c ≠ 0x29) (h3 : c ≠ 0x5C) (h4 : c ≠ 0x5B) :
-    PInv e k u G K { st with input := r } :=
-  h.drop (p := [c]) hi (neutral_out e k h1 h2 h3 h4)
+    PInv F u Γ { st with input := r } :=
+  h.drop (p := [c]) hi (neutral_out F h1 h2 h3 h4)
+
+theorem Joint.drop {F : Feat} {Γ : Glob} {est : ESG.St} {st : PState} (h : Joint Γ est st) {p r : List Nat}
+    (hi : st.input = p ++ r) (hp : Neutral F p) : Joint Γ est { st with input := r } := by
+  have h2 := h.names
+  rw [hi, hp.names_eq r] at h2
+  exact ⟨h.groups, h2⟩
+
+theorem Joint.tail {F : Feat} {Γ : Glob} {est : ESG.St} {st : PState} (h : Joint Γ est st) {c : Nat} {r : List Nat}
+    (hi : st.input = c :: r) (h1 : c ≠ 0x28) (h2 : c ≠ 0x29) (h3 : c ≠ 0x5C) (h4 : c ≠ 0x5B) :
+    Joint Γ est { st with input := r } :=
+  h.drop (F := F) (p := [c]) hi (neutral_out F h1 h2 h3 h4)
 
 /-! ## One iteration of the term loop -/
 
